@@ -8,6 +8,7 @@ import Mathlib.Algebra.Order.Ring.Rat
 import Mathlib.Tactic.NormNum
 import Mathlib.Analysis.SpecialFunctions.Complex.Arg
 import Mathlib.Analysis.SpecialFunctions.Trigonometric.Inverse
+import Mathlib.Analysis.SpecialFunctions.Pow.Real
 namespace Evo
 
 set_option linter.unusedSectionVars false
@@ -174,6 +175,31 @@ theorem atan2_eq_zero_iff (y x : ℝ) : atan2 y x = 0 ↔ 0 ≤ x ∧ y = 0 := b
 arithmetic): `atan2(√s², c)` of the angle core -/
 noncomputable def angleR (a b : M3 ℝ) : ℝ :=
   atan2 (√((relSo3 a b).angleCore.2)) (relSo3 a b).angleCore.1
+
+/-- `sin θ/θ` (1 at 0) and `(1 − cos θ)/θ²` (1/2 at 0): the Rodrigues coefficients -/
+noncomputable def sincR (θ : ℝ) : ℝ := if θ = 0 then 1 else sin θ / θ
+noncomputable def coscR (θ : ℝ) : ℝ := if θ = 0 then 1 / 2 else (1 - cos θ) / θ ^ 2
+
+/-- `so3_exp` over ℝ: Rodrigues' formula with `θ = ‖v‖` -/
+noncomputable def expR (v : V3 ℝ) : M3 ℝ := rodrigues v (sincR (√v.normSq)) (coscR (√v.normSq))
+
+/-- `so3_log` over ℝ for rotation angles `< π`: `θ/sin θ · vee((R − Rᵀ)/2)` with
+`θ = atan2(√s², c)`; `0` when `sin θ = 0` (correct for angle 0; angle π is outside the domain) -/
+noncomputable def logR (r : M3 ℝ) : V3 ℝ :=
+  if sin (atan2 (√r.angleCore.2) r.angleCore.1) = 0 then V3.zero
+  else V3.smul (atan2 (√r.angleCore.2) r.angleCore.1 / sin (atan2 (√r.angleCore.2) r.angleCore.1)) r.axisVec
+
+theorem rodrigues_smul (k a b : ℝ) (w : V3 ℝ) :
+    rodrigues (V3.smul k w) a b = rodrigues w (a * k) (b * k ^ 2) := by
+  ext <;> simp only [rodrigues, M3.add, M3.smul, M3.mul, M3.hat, M3.one, V3.smul] <;> ring
+
+theorem sinc_cosc_rel (θ : ℝ) :
+    sincR θ * sincR θ + coscR θ * coscR θ * (θ * θ) = (1 + 1) * coscR θ := by
+  unfold sincR coscR
+  split_ifs with h
+  · subst h; norm_num
+  · field_simp
+    nlinarith [Real.sin_sq_add_cos_sq θ]
 
 end real
 end Evo
